@@ -3,6 +3,7 @@ mod codec;
 mod gen;
 mod rng;
 mod sim;
+mod watchdog;
 use std::io::Write;
 
 fn arg(name: &str, default: &str) -> String {
@@ -35,6 +36,10 @@ fn main() {
     let n: usize = arg("--n", "100").parse().unwrap();
     let out = arg("--out", "/verif/work");
     std::fs::create_dir_all(&out).unwrap();
+    // the disk backend (random-access-disk with the tokio feature) needs a runtime context
+    let rt = tokio::runtime::Builder::new_multi_thread().worker_threads(2).enable_all().build().unwrap();
+    let _guard = rt.enter();
+    watchdog::start(out.clone(), arg("--hang-ms", "60000").parse().unwrap());
     if std::env::var("HCV_PANICS").is_err() { std::panic::set_hook(Box::new(|_| {})); }
     match cmd.as_str() {
         "codec" => {
@@ -56,6 +61,11 @@ fn main() {
             let o = if kind == "large" { gen::large_histories(seed, n, mode == gen::Mode::Crash) } else if kind == "random" { gen::random_histories(seed, n, maxops, mode, big) } else { gen::exhaustive_histories(depth, mode, n, seed) };
             finish(&out, o);
         }
+        "adv" => {
+            let maxlen: u64 = arg("--maxlen", "12").parse().unwrap();
+            finish(&out, gen::adversarial_histories(seed, n, maxlen, arg("--kind", "alter") == "requests"));
+        }
+        "configs" => { finish(&out, gen::config_histories(seed, n, arg("--maxops", "25").parse().unwrap())); }
         "repl" => {
             let maxlen: u64 = arg("--maxlen", "20").parse().unwrap();
             let mode = match arg("--mode", "log").as_str() { "crash" => gen::Mode::Crash, "torn" => gen::Mode::Torn, _ => gen::Mode::Log };
